@@ -3,7 +3,7 @@
 # Applies a seeded change to /repo, runs the check, and undoes the change straight afterwards.
 id=$1; patch=$2; tier=${3:-quick}
 cd /verif
-git -C /repo apply "$patch" || { echo "patch does not apply"; exit 3; }
+git -C /repo apply --recount "$(realpath "$patch")" || { echo "patch does not apply"; exit 3; }
 ./check $id $tier > /tmp/seedtest.$$.out 2>&1; rc=$?
 git -C /repo checkout -- . 
 grep -E "^(VIOLATION|KNOWN|OK|BROKEN|part )" /tmp/seedtest.$$.out | cut -c1-400
